@@ -335,8 +335,13 @@ func (W *World) contractStale(fn string) bool {
 	if ct == nil {
 		return false
 	}
-	for _, list := range [][]*Clause{ct.Requires, ct.Ensures, ct.Invs, ct.Asserts} {
+	// only clauses that other proofs lean on count: preconditions, domain assumptions, loop invariants and site
+	// assumptions. A postcondition or site assertion that no longer evaluates takes no hypothesis away from anything.
+	for _, list := range [][]*Clause{ct.Requires, ct.Domains, ct.Invs, ct.Asserts} {
 		for _, cl := range list {
+			if cl.Kind == "assert" || cl.Kind == "step" {
+				continue
+			}
 			if errClauses[cl] && renameLike(errClauseMsg[cl]) {
 				return true
 			}
